@@ -619,6 +619,22 @@ func runC04(c *RuleCtx) {
 	c.Min["R04.6"] = 3
 	// C04's last sentence also rests on the local-publish chain of C02 (R02.2); evaluate it here too
 	runLocalPublishChain(c)
+	// "dropped without penalising anyone" has a second penaliser besides the scorer: the IWANT promise tracker, whose
+	// RejectMessage decides per reason whether a promised message counts as arrived (C17 PROM rows on the reasons)
+	{
+		sub := &RuleCtx{P: c.P, Prop: c.Prop, Min: map[string]int{}}
+		runC17(sub)
+		n := 0
+		for _, o := range sub.Obs {
+			if o.Rule == "PROM" && strings.Contains(o.Key, "(*gossipTracer).RejectMessage") {
+				c.Obs = append(c.Obs, o)
+				n++
+			}
+		}
+		if n == 0 {
+			c.Undecided("PROM", "(*gossipTracer).RejectMessage", "promise accounting per reject reason", nil, "no PROM obligation on gossipTracer.RejectMessage found")
+		}
+	}
 }
 
 // runLocalPublishChain re-evaluates the R02.2 obligations that C04's "never leaves the node" clause depends on.
